@@ -110,4 +110,21 @@ theorem readall_returns_src : readall_returns = "n, io.ErrShortBuffer | n, err" 
 theorem readall_read_args_src : readall_read_args = "buf[n:]" := by decide
 theorem readall_count_src : readall_count = "len,Read" := by decide
 
+/-! Round 3: the HTTP request around a DoH query and the client's address. -/
+
+/-- `httpHandler.remoteAddr` cuts the zone off the host before `netutil.ParseIP` sees it and keeps it in
+the returned address (`Agd.Serve.remoteParses true`; the code before the fix called `ParseIP` on the
+host as split, which panics on `fe80::1%eth0`). -/
+theorem remote_addr_calls_src : remote_addr_calls = "SplitHostPort,Cut,ParseIP,NetworkFromAddr" := by decide
+theorem remote_addr_cut_args_src : remote_addr_cut_args = "ipStr, \"%\"" := by decide
+theorem remote_addr_parse_args_src : remote_addr_parse_args = "ipStr" := by decide
+theorem remote_addr_returns_src : remote_addr_returns = "&net.UDPAddr{IP: ip, Port: int(port), Zone: zone} | &net.TCPAddr{IP: ip, Port: int(port), Zone: zone}" := by decide
+/-- `ServeHTTP` recovers panics, then routes on `isDoH` alone: `serveDoH` or 404 (`Agd.Serve.panicked`, `serveDoHReq`). -/
+theorem serve_http_calls_src : serve_http_calls = "handlePanicAndRecover,isDoH,serveDoH,Error" := by decide
+/-- POST: the whole body; GET: the one `dns` value, unpadded base64url (`Agd.Serve.dohFront`). -/
+theorem doh_post_calls_src : doh_post_calls = "ReadAll" := by decide
+theorem doh_get_decode_src : doh_get_decode = "nil, fmt.Errorf(\"no 'dns' query parameter found\") | nil, fmt.Errorf(\"multiple 'dns' query values found\") | base64.RawURLEncoding.DecodeString(b64[0])" := by decide
+theorem doh_path_consts_src : doh_path_consts = "\"/dns-query\"" := by decide
+theorem json_path_const_src : json_path_const = "\"/resolve\"" := by decide
+
 end Agd.Tie.C01
